@@ -625,7 +625,7 @@ func solveAll(obls []*Obligation, dir string, timeout int, all bool) {
 	sem := make(chan struct{}, 12)
 	for _, o := range obls {
 		o := o
-		if o.Kind == "structural" {
+		if o.Kind == "structural" || o.Solver == "ssa-scan" {
 			continue
 		}
 		if (o.Goal == "true" || o.Guard == "false") && len(o.SubObls) == 0 {
